@@ -20,6 +20,11 @@ pub struct MetaCase {
     /// extra context names bound to a string (names the generator also uses as targets / specials)
     pub extra: Vec<String>,
     pub undefined: u8,
+    /// 0: one syntax throughout. 1 / 2: the template is written and loaded under custom
+    /// delimiters, then the environment's syntax is switched (to the default / to another custom
+    /// one; documented to affect only templates loaded later) before the report is asked for
+    #[serde(default)]
+    pub syntax_switch: u8,
 }
 
 pub struct Soundness;
@@ -102,12 +107,14 @@ impl Part for Soundness {
             prop::collection::vec(0..free::VARS.len(), 0..5),
             prop::collection::vec(crate::runner::one_of(&["loop", "self", "super", "caller", "varargs", "kwargs", "z", "a2", "q", "ns"]), 0..5),
             any::<u8>(),
+            prop_oneof![7 => Just(0u8), 2 => Just(1u8), 1 => Just(2u8)],
         )
-            .prop_map(|(source, missing, extra, undefined)| MetaCase {
+            .prop_map(|(source, missing, extra, undefined, syntax_switch)| MetaCase {
                 source,
                 missing: missing.into_iter().map(|i| free::VARS[i].to_string()).collect(),
                 extra: extra.into_iter().map(|s| s.to_string()).collect(),
                 undefined,
+                syntax_switch,
             })
             .boxed()
     }
@@ -117,7 +124,29 @@ impl Part for Soundness {
         env.set_debug(false);
         env.set_undefined_behavior(crate::props::c01::behavior(c.undefined));
         env.set_fuel(Some(100_000));
-        if env.add_template_owned("t.txt".to_string(), c.source.clone()).is_err() {
+        let mut source = c.source.clone();
+        if c.syntax_switch % 3 != 0 {
+            let custom = |bs: &str, be: &str, vs: &str, ve: &str, cs: &str, ce: &str| {
+                minijinja::syntax::SyntaxConfig::builder()
+                    .block_delimiters(bs.to_string(), be.to_string())
+                    .variable_delimiters(vs.to_string(), ve.to_string())
+                    .comment_delimiters(cs.to_string(), ce.to_string())
+                    .build()
+                    .unwrap()
+            };
+            // the same template spelled with other delimiters (a source in which the replacement
+            // does not give a valid template is skipped as a load error)
+            source = source.replace("{%", "<%").replace("%}", "%>").replace("{{", "<<").replace("}}", ">>").replace("{#", "<#").replace("#}", "#>");
+            env.set_syntax(custom("<%", "%>", "<<", ">>", "<#", "#>"));
+            if env.add_template_owned("t.txt".to_string(), source.clone()).is_err() {
+                return Verdict::pass(false).label("load_error");
+            }
+            if c.syntax_switch % 3 == 1 {
+                env.set_syntax(Default::default());
+            } else {
+                env.set_syntax(custom("[%", "%]", "[[", "]]", "[#", "#]"));
+            }
+        } else if env.add_template_owned("t.txt".to_string(), source.clone()).is_err() {
             return Verdict::pass(false).label("load_error");
         }
         let t = env.get_template("t.txt").unwrap();
@@ -144,6 +173,9 @@ impl Part for Soundness {
         let mut v = Verdict::pass(!read.is_empty() && assigns_and_reads);
         if result.is_ok() {
             v.labels.push("rendered_ok");
+        }
+        if c.syntax_switch % 3 != 0 {
+            v.labels.push("syntax_switched_after_load");
         }
         for (what, set) in [("undeclared_variables(false)", &declared), ("undeclared_variables(true)", &nested)] {
             let omitted: Vec<&String> = read.difference(set).collect();
@@ -195,7 +227,7 @@ impl Part for Soundness {
 crate::declare_parts!(Soundness);
 
 pub fn run(ctx: &mut Ctx) {
-    ctx.rule = "single-file templates (no include/import/extends): a generator of assignment shapes that read what they assign (set x = f(x), tuple targets, set-blocks reading their target, set-block/filter-block filter arguments, with a = a / with a = 1, b = a, loop targets reused in iterable/filter/else, macro defaults reading other parameters and themselves, call-block parameters, nested macros, one-branch-only assignments, set ns.attr, slices, autoescape expressions, loop/self/super/caller/varargs/kwargs as plain variables), plus free-mode and tame programs; rendered with a recording context object over random subsets of the context (and context keys named like the special names); every key the engine asked the context for, minus the environment's globals, must be in undeclared_variables(false) and among the first segments of undeclared_variables(true). Non-trivial: at least one context look-up and the template contains an assigning construct. Distinct by case.".into();
+    ctx.rule = "single-file templates (no include/import/extends): a generator of assignment shapes that read what they assign (set x = f(x), tuple targets, set-blocks reading their target, set-block/filter-block filter arguments, with a = a / with a = 1, b = a, loop targets reused in iterable/filter/else, macro defaults reading other parameters and themselves, call-block parameters, nested macros, one-branch-only assignments, set ns.attr, slices, autoescape expressions, loop/self/super/caller/varargs/kwargs as plain variables), plus free-mode and tame programs; rendered (in 30 % of the cases after the template was loaded under custom delimiters and the environment's syntax switched afterwards) with a recording context object over random subsets of the context (and context keys named like the special names); every key the engine asked the context for, minus the environment's globals, must be in undeclared_variables(false) and among the first segments of undeclared_variables(true). Non-trivial: at least one context look-up and the template contains an assigning construct. Distinct by case.".into();
     ctx.assumptions = vec![
         "debug mode is off so that error decoration does not add look-ups".into(),
         "one direction only: the report may over-approximate".into(),
